@@ -224,6 +224,11 @@ fn tweak_for(prop: &str) -> impl Fn(&mut Swarm) {
         }
         "C17" => {
             sw.steps = *[30usize, 80, 150, 400].get((sw.domain % 4) as usize).unwrap_or(&150);
+            if sw.max_rows_stmt == 6 && sw.null_pct >= 30 {
+                // one run in ~15: a few integer keys shared by hundreds of row ids each
+                sw.big_rows = 1;
+                sw.steps = 1400;
+            }
         }
         "C03" => {
             if sw.guard("c03_no_ints_beyond_2_53") {
